@@ -26,6 +26,7 @@ type Config struct {
 	Workers    int
 	OpsPer     int
 	SeedOps    []int // per worker: pseudo-random stream seed
+	Damaged    bool  // one extra partition whose IK row in the metastore is damaged: decrypts of its record fail, nothing else may
 }
 
 // Class renders the cache configuration.
@@ -65,6 +66,7 @@ func DrawConfig(t *rapid.T) Config {
 	for i := 0; i < c.Workers; i++ {
 		c.SeedOps = append(c.SeedOps, rapid.IntRange(1, 1<<30).Draw(t, "stream"))
 	}
+	c.Damaged = rapid.IntRange(0, 3).Draw(t, "damagedPartition") == 1
 	return c
 }
 
@@ -133,6 +135,23 @@ func RunCase(c Config, plan []kit.PlanEntry) Outcome {
 			verifhook.Advance(3 * time.Second)
 		}
 	}
+	var damaged *pooled
+	if c.Damaged {
+		// a partition whose intermediate key row is damaged in the metastore: loading that key fails for everyone,
+		// for good - an error for those decrypts, and no consequence for anybody else
+		s, err := f.GetSession("damaged")
+		if err != nil {
+			return Outcome{Viol: "seeding: " + err.Error()}
+		}
+		r, err := s.Encrypt(ctx, []byte("damaged"))
+		s.Close()
+		if err != nil {
+			return Outcome{Viol: "seeding: " + err.Error()}
+		}
+		damaged = &pooled{"damaged", []byte("damaged"), cloneDRR(*r)}
+		store.Corrupt(r.Key.ParentKeyMeta.ID, r.Key.ParentKeyMeta.Created)
+		verifhook.Advance(3 * time.Second) // the cached copy goes stale: the next use reloads the damaged row
+	}
 	liveBefore := secrets.Count()
 	sc := kit.NewSched(plan, kit.SiteFilter("go/appencryption/"))
 	sc.Install()
@@ -199,6 +218,16 @@ func RunCase(c Config, plan []kit.PlanEntry) Outcome {
 					}
 				default:
 					verifhook.Advance(600 * time.Millisecond)
+				}
+				if damaged != nil && next(4) == 0 {
+					if ds, err := f.GetSession("damaged"); err == nil {
+						out, err := ds.Decrypt(ctx, cloneDRR(damaged.drr))
+						ds.Close()
+						if err == nil && !bytes.Equal(out, damaged.payload) {
+							note("worker %d: decrypt behind a damaged key row returned other bytes", w)
+							return
+						}
+					}
 				}
 				if next(3) == 0 {
 					held, heldPart = s, part // keep the session across operations
